@@ -273,6 +273,8 @@ TABLE = [
      [('reset', True)]),
     (('C12',), 'mistral.engine.tasks.RegularTask._reset_actions', '=accepted',
      []),
+    (('C20',), 'mistral.engine.workflow_handler._schedule_check_and_fix_integrity', 'schedule',
+     [('0 <= CONF.engine.execution_integrity_check_delay', True)]),
     (('C12',), 'mistral.engine.workflow_handler.rerun_workflow', '_schedule_check_and_fix_integrity',
      [('wf_ex.task_execution_id', True)]),
     (('C07',), 'mistral.engine.tasks.WithItemsTask._increase_capacity', 'update',
@@ -374,6 +376,24 @@ def _paths(txt):
             if not any(q != p_ and q.startswith(p_ + '.') for q in out)}
 
 
+def _bound(txt):
+    """(operator, side of the constant, constant, other operand) of an
+    order comparison with a numeric constant."""
+    try:
+        e = ast.parse(txt, mode='eval').body
+    except SyntaxError:
+        return None
+    if not (isinstance(e, ast.Compare) and len(e.ops) == 1 and
+            isinstance(e.ops[0], (ast.Lt, ast.LtE))):
+        return None
+    a, b = e.left, e.comparators[0]
+    for side, c, o in (('l', a, b), ('r', b, a)):
+        if isinstance(c, ast.Constant) and isinstance(c.value, (int, float)) \
+                and not isinstance(c.value, bool):
+            return (type(e.ops[0]).__name__, side, c.value, norm(o, 200))
+    return None
+
+
 def enabling_facts(cfg, f, node, all_=False):
     out = []
     for a, t in U.guard_atoms(cfg, node):
@@ -449,6 +469,20 @@ def required_effects(ctx, rule, prop):
             extra = [x for x in facts_here
                      if x not in allowed and
                      not (_paths(x[0]) and _paths(x[0]) <= known)] + negated
+            # a bound moved by one (`0 <= x` listed, `0 < x` found) is not a
+            # respelling: the boundary value changes sides
+            for x in facts_here:
+                if x in allowed or x in extra:
+                    continue
+                bx = _bound(x[0])
+                if bx is None:
+                    continue
+                for y in allowed:
+                    by = _bound(y[0])
+                    if by is not None and by[1:] == bx[1:] and \
+                            x[1] == y[1] and by[0] != bx[0]:
+                        extra.append(x)
+                        break
             rule.check(not extra, ctx.construct(f, extra=eff + ' enabled'),
                        '%s is additionally conditioned on %s: the effect / '
                        'refusal is skipped in situations where the property '
